@@ -7,7 +7,12 @@ type Seq uint64
 var seq uint64
 
 func Set(s Seq) {
-	atomic.CompareAndSwapUint64(&seq, 0, uint64(s))
+	for {
+		cur := atomic.LoadUint64(&seq)
+		if cur >= uint64(s) || atomic.CompareAndSwapUint64(&seq, cur, uint64(s)) {
+			return
+		}
+	}
 }
 
 func Next() Seq {
